@@ -515,11 +515,15 @@ func ruleC01R8(c *Ctx) {
 
 	// every output pair's existing queue ids are listed and fed to NewOrchestrator
 	so := c.P.Fn(aStartOrc)
-	sList := siteSumm(c.P, func(s ssa.CallInstruction) bool { return invokeOf(s, "base/bconfig.ChunkBufferConfig", "ListBufferIDs") })
+	sList := siteSumm(c.P, func(s ssa.CallInstruction) bool {
+		return invokeOf(s, "base/bconfig.ChunkBufferConfig", "ListBufferIDs")
+	})
 	sList.AllowEmptyGuards = false
 	c.mustBeforeReturn("C01.R8", so, entryOf(so), sList, "ListBufferIDs for every output pair", "ChunkBufferConfig.ListBufferIDs per pair", so.Pos(), nil)
 	lp := (*loop)(nil)
-	for _, s := range sitesWhere(so, func(s ssa.CallInstruction) bool { return invokeOf(s, "base/bconfig.ChunkBufferConfig", "ListBufferIDs") }) {
+	for _, s := range sitesWhere(so, func(s ssa.CallInstruction) bool {
+		return invokeOf(s, "base/bconfig.ChunkBufferConfig", "ListBufferIDs")
+	}) {
 		lp = loopOf(so, s.Block())
 		rng := false
 		if lp != nil {
